@@ -119,6 +119,19 @@ func (s *Staking) processDoubleSignV5(config *params.YouParams, currentDB *state
 	if len(doubleSign.Signs) < 2 {
 		return
 	}
+	// a double sign needs at least two different block hashes
+	distinct := false
+	for _, info := range doubleSign.Signs {
+		if info == nil {
+			return
+		}
+		if info.Hash != doubleSign.Signs[0].Hash {
+			distinct = true
+		}
+	}
+	if !distinct {
+		return
+	}
 
 	log.Info("slashing", "type", EvidenceTypeDoubleSignV5, "parent", parentHeight, "eRound", doubleSign.Round, "eRoundIndex", doubleSign.RoundIndex, "sinerIdx", doubleSign.SignerIdx, "signs", len(doubleSign.Signs))
 	switch {
